@@ -296,6 +296,7 @@ theorem WF.step (ser : String → List Nat) {s : St} (h : WF s.svc) (op : Op) : 
   | sadd => exact h
   | sdel id => exact h
   | spush ids r d => exact h
+  | sclose id => exact h
 
 theorem WF.run (ser : String → List Nat) (ops : List Op) {s : St} (h : WF s.svc) : WF (run ser s ops).svc := by
   induction ops generalizing s with
@@ -372,6 +373,7 @@ theorem view_step (ser : String → List Nat) (s : St) (op : Op) (c f : String) 
   | sadd => rfl
   | sdel id => rfl
   | spush ids r d => rfl
+  | sclose id => rfl
 
 theorem view_run (ser : String → List Nat) (s : St) (ops : List Op) (c f : String) :
     view (run ser s ops).svc c f = ops.foldl (stepView c f) (view s.svc c f) := by
@@ -413,6 +415,7 @@ theorem exists_step (ser : String → List Nat) (s : St) (op : Op) (c : String) 
   | sadd => rfl
   | sdel id => rfl
   | spush ids r d => rfl
+  | sclose id => rfl
 
 theorem exists_run (ser : String → List Nat) (s : St) (ops : List Op) (c : String) :
     (aget (run ser s ops).svc.chans c).isSome = ops.foldl (stepExists c) (aget s.svc.chans c).isSome := by
@@ -421,7 +424,7 @@ theorem exists_run (ser : String → List Nat) (s : St) (ops : List Op) (c : Str
   | cons op ops ih => simp only [run, List.foldl_cons] at ih ⊢; rw [ih, exists_step]
 
 theorem front_step_chan (ser : String → List Nat) (s : St) (op : Op)
-    (h : match op with | .sadd => False | .sdel _ => False | _ => True) :
+    (h : match op with | .sadd => False | .sdel _ => False | .sclose _ => False | _ => True) :
     (step ser s op).1.front = s.front ∧ (step ser s op).1.localFront = s.localFront := by
   cases op <;> simp_all [step]
 
@@ -499,6 +502,7 @@ theorem tally_step (c f : String) (x : Nat) (v : Option (List Nat)) (t : Tally) 
   | sadd => exact ⟨h1, h2⟩
   | sdel _ => exact ⟨h1, h2⟩
   | spush _ _ _ => exact ⟨h1, h2⟩
+  | sclose _ => exact ⟨h1, h2⟩
 
 theorem tally_fold (c f : String) (x : Nat) (ops : List Op) (v : Option (List Nat)) (t : Tally)
     (h : (v.getD []).count x = t.adds - t.left ∧ t.left ≤ t.adds) :
@@ -535,6 +539,7 @@ theorem joinSeq_step (c f : String) (v : Option (List Nat)) (j : List Nat) (op :
   | sadd => exact h
   | sdel _ => exact h
   | spush _ _ _ => exact h
+  | sclose _ => exact h
 
 theorem joinSeq_fold (c f : String) (ops : List Op) (v : Option (List Nat)) (j : List Nat)
     (h : (v.getD []).Sublist j) :
@@ -588,6 +593,10 @@ theorem live_nodup_step (ser : String → List Nat) (s : St) (op : Op) (h : s.fr
   cases op with
   | sadd => exact addSession_nodup _ h
   | sdel id => exact removeSession_nodup _ id h
+  | sclose id =>
+    show (s.front.closeSession id).1.live.Nodup
+    unfold Front.closeSession
+    by_cases hm : id ∈ s.front.live <;> simp [hm, h]
   | _ => exact h
 
 theorem live_nodup_run (ser : String → List Nat) (s : St) (ops : List Op) (h : s.front.live.Nodup) :
